@@ -77,6 +77,7 @@ type Op struct {
 	Private bool   `json:"private,omitempty"` // push: GetPrivate instead of GetWrapped
 	Keep    uint32 `json:"keep,omitempty"`    // gc: bit i set = drop the i-th visited pair
 	Dirty   bool   `json:"dirty,omitempty"`   // reopen without persisting the layers
+	Overlap int    `json:"overlap,omitempty"` // persist: a second goroutine puts a key and calls PersistSync while the flush writes to the backend
 	Race    int    `json:"race,omitempty"`    // gc: another goroutine commits a value for the Race-th visited key while the pass is there
 }
 
@@ -323,6 +324,9 @@ func drawOp(d drawer) Op {
 	case opPersist:
 		o.Variant = d.n(0, 2, "variant")
 		o.Fail = d.n(0, 7, "fail") == 7
+		if d.n(0, 5, "overlap") == 5 {
+			o.Overlap = 1
+		}
 	case opPush:
 		o.Private = d.n(0, 1, "private") == 1
 	case opGC:
